@@ -318,7 +318,8 @@ def run(ctx: C.Ctx):
             if any(t[0] != "leaf" for t in trees):
                 nontrivial.add(("ir", ind, repr(trees)))
         # whole sketches from hand-built IR: sections of emit()
-        sk_cases = [(F.gen_ir(rng, 2, 0.4), F.gen_ir(rng, 2, 0.4), [["fn0", F.gen_ir(rng, 2, 0.5)], ["fn1", []]]) for _ in range(60 if thorough else 15)]
+        plain = [sp for sp in F.LEAF_SPECS if sp[0] != "ButtonDecl"]       # emit() hoists device declarations into setup()
+        sk_cases = [(F.gen_ir(rng, 2, 0.4, plain), F.gen_ir(rng, 2, 0.4, plain), [["fn0", F.gen_ir(rng, 2, 0.5, plain)], ["fn1", []]]) for _ in range(60 if thorough else 15)]
         sk_cases.append(([], [], [["fn0", []]]))
         sk = C.run_impl("c07_impl.py", {"cases": [["emitprog", a, b, fns] for a, b, fns in sk_cases]}, timeout=3000)
         for (a, b, fns), r in zip(sk_cases, sk):
